@@ -88,6 +88,11 @@ def initial_cases(tier, seed):
     for mol, cls in itertools.product(["HF", "H2O", "LiHgc"], ["SDMX", "SDMXG", "SDMX1", "SDMXG1", "SDMXFull"]):
         for nspin in (1, 2):
             cases.append({"kind": "sdmx", "mol": mol, "cls": cls, "nspin": nspin, "seed": seed})
+    # fractional-Laplacian orbital features at the exponents where (-Lapl)^s is a differential operator (s = 0, 1): every
+    # feature group against PySCF's own orbital derivatives (s, p and d shells; generally contracted shells)
+    for mol in ("HF", "H2O", "LiHgc", "Hed"):
+        for order in ([0.0, 1.0], [1.0, 0.0]):
+            cases.append({"kind": "nlof", "mol": mol, "slist": order, "seed": seed})
     return cases
 
 
@@ -357,7 +362,80 @@ def run_sdmx(case):
     return {"fail": fails, "evals": 3, "edges": 2, "outcome": [ck, float("%.6e" % np.abs(ff).sum())], "info": info}
 
 
+class _PointGrid:
+    def __init__(self, mol, coords):
+        self.mol, self.coords, self.weights = mol, np.ascontiguousarray(coords), np.ones(len(coords))
+        self.non0tab, self.cutoff = None, 0
+
+
+def run_nlof(case):
+    """Documented definitions (FracLaplSettings docstring) evaluated with PySCF's orbital derivatives for s in {0, 1}:
+      F_s        = sum_ij D_ij phi_i [(-Lapl)^s phi_j]                      (scalar)
+      F_s^1      = sum_ij D_ij grad phi_i [(-Lapl)^s phi_j]                 (l=1 vector; -1 = grad rho)
+      F_s^d      = sum_ij D_ij phi_i grad [(-Lapl)^s phi_j]                 (F^d vector)
+      F_s^dd     = sum_ij D_ij grad phi_i . grad [(-Lapl)^s phi_j]
+    and the features are the listed contractions.  The package evaluates (-Lapl)^s of a Gaussian through a 1F1 spline for
+    every s, so the integer exponents exercise the same code as the fractional ones."""
+    from pyscf import gto
+    from pyscf.dft import numint
+
+    from ciderpress.dft.settings import FracLaplSettings
+    from ciderpress.pyscf.descriptors import _fl_desc_getter
+
+    from mc import fixtures as F
+
+    name = case["mol"]
+    mol = F.make_mol(name)
+    dm = F.make_dm(mol, "D1", case["seed"])
+    slist = list(case["slist"])
+    l1 = [(-1, 0), (0, 0), (0, 1), (-1, 1), (1, 1)]
+    st = FracLaplSettings(slist, 2, 2, l1, nd1=2, ld_dots=list(l1), ndd=2)
+    rng = np.random.RandomState(11)
+    coords = np.ascontiguousarray(mol.atom_coords()[rng.randint(0, mol.natm, 18)] + rng.randn(18, 3) * 0.8)
+    got = np.asarray(_fl_desc_getter(mol, _PointGrid(mol, coords), dm, st))
+    ao = numint.eval_ao(mol, coords, deriv=3)  # 20 components: value, 3 first, 6 second, 10 third derivatives
+    phi, g = ao[0], ao[1:4]
+    lap = ao[4] + ao[7] + ao[9]
+    # third derivatives order: xxx xxy xxz xyy xyz xzz yyy yyz yzz zzz
+    glap = np.array([ao[10] + ao[13] + ao[15], ao[11] + ao[16] + ao[18], ao[12] + ao[17] + ao[19]])
+    op = {0.0: (phi, g), 1.0: (-lap, -glap)}
+    D = 0.5 * (dm + dm.T)
+    c0 = phi @ D
+    cg = np.array([g[x] @ D for x in range(3)])
+    scal, v1, vd, dd = [], [], [], []
+    for s_ in slist:
+        k, gk = op[s_]
+        scal.append(np.einsum("gi,gi->g", c0, k))
+        v1.append(np.array([np.einsum("gi,gi->g", cg[x], k) for x in range(3)]))
+        vd.append(np.array([np.einsum("gi,gi->g", c0, gk[x]) for x in range(3)]))
+        dd.append(sum(np.einsum("gi,gi->g", cg[x], gk[x]) for x in range(3)))
+    drho = 2 * np.array([np.einsum("gi,gi->g", c0, g[x]) for x in range(3)])
+    ref = list(scal)
+    for vecs in (v1, vd):
+        vv = vecs + [drho]
+        for j, k in l1:
+            ref.append((vv[j] * vv[k]).sum(0))
+    ref += dd
+    ref = np.array(ref)
+    ck = "mol=%s;slist=%s" % (name, ",".join("%g" % x for x in slist))
+    fails = []
+    if got.shape != ref.shape:
+        return {"fail": [{"key": "nlof-definition-shape;" + ck, "msg": "%s features returned, %s defined" % (got.shape, ref.shape)}], "evals": 1, "outcome": "shape"}
+    names = ["F_s[%d]" % i for i in range(2)] + ["l1dot%s" % (d,) for d in l1] + ["lddot%s" % (d,) for d in l1] + ["F_dd[%d]" % i for i in range(2)]
+    worst = 0.0
+    for j in range(ref.shape[0]):
+        e = np.abs(got[j] - ref[j]).max() / (np.abs(ref[j]).max() + 1e-300)
+        worst = max(worst, e)
+        # measured: <= 3e-8 (accuracy of the 1F1 spline)
+        if not e <= 2e-6:
+            fails.append({"key": "nlof-definition;%s;feat=%s" % (ck, names[j]),
+                          "msg": "fractional-Laplacian feature %s differs from the documented definition (PySCF orbital derivatives) by %.3e of its scale" % (names[j], e)})
+    return {"fail": fails, "evals": 2, "edges": 1, "outcome": [ck, float("%.6e" % np.abs(got).sum())], "info": {"worst": worst}}
+
+
 def run_case(case):
+    if case["kind"] == "nlof":
+        return run_nlof(case)
     if case["kind"] == "nldf":
         return run_nldf(case)
     return run_sdmx(case)
